@@ -174,4 +174,237 @@ def makeFractionX (F : Fmt) (I : IntTy) (d : FVal) (fuel : Nat) : Res (Frac × E
 def makeFraction (F : Fmt) (I : IntTy) (d : FVal) (fuel : Nat) : Res Frac :=
   (makeFractionX F I d fuel).map (·.1)
 
+
+/-! ## components that are CNL numbers (`wide_integer`, `overflow_integer`, `elastic_integer`, `rounding_integer`)
+
+`make_fraction` is generic in `int_t`.  A component type enters the algorithm through four things
+only: `numeric_limits<int_t>::max()`, `static_cast<int_t>(floating)`, the arithmetic operators
+`+ - *` (whose result may be a wider type) and the narrowing `static_cast<int_t>(…)` of such a result
+when it is stored in a fraction.  `Comp` describes them:
+
+* `digits`: `numeric_limits<int_t>::digits` (`max = 2^digits − 1`, `lowest = −2^digits`);
+* `arith`: what `+ - *` do with a result outside `[lowest, max]` — `ub` (built-in representation,
+  `rounding_integer`), `sat`/`trap`/`throw` (`overflow_integer` with that tag), `keep` (the operator
+  returns a wider type holding the exact value: `wide_integer`, `elastic_integer`);
+* `fcvt`: the same for `static_cast<int_t>(floating)` with a truncated value outside `[lowest, max]`;
+* `store`: width of the two's-complement pattern a stored component has; under `keep` a value that
+  does not fit it is *not predicted* (`ill`: the real type wraps, traps in UBSan or widens depending
+  on the wrapper — the driver then falls back to the property's oracle on the implementation's own
+  result);
+* `nearest`: `static_cast<int_t>(floating)` rounds half away from zero (`rounding_integer<…, nearest>`:
+  `static_cast<Rep>(static_cast<long double>(x) ± .5L)`) instead of truncating.
+
+`makeFractionC F C d fuel` is the same transcription of `make_fraction.h` as `makeFractionX`, expression
+by expression, with these operations in place of the built-in ones; `Comp.builtin D` gives the
+built-in behaviour on a `D+1`-bit signed type of rank ≥ `int` (`C17_generic_builtin_sweep` and the
+driver's per-line cross-check tie the two). -/
+
+inductive OvMode where
+  | ub | sat | trap | throw | keep | unknown
+deriving DecidableEq, Repr, Inhabited
+
+structure Comp where
+  digits : Nat
+  store : Nat
+  arith : OvMode
+  fcvt : OvMode
+  nearest : Bool
+  /-- under `keep`: what an arithmetic result that does not fit `store` bits does — `keep` (the operator's
+  result type is wide enough: `elastic_integer`), `ub` (single-word `wide_integer`: the word overflows),
+  `unknown` (multi-word: wraps at the limb count of whichever operand type; not predicted) -/
+  beyond : OvMode
+  /-- `0`: `static_cast<FloatingPoint>(component)` is the correctly rounded conversion of a built-in integer;
+  `w > 0`: the representation is a multi-word `uintwide_t` with `w`-bit limbs, whose conversion adds the limbs
+  from the least significant one, rounding after every addition (`extract_builtin_floating_point_type`) -/
+  limb : Nat
+deriving DecidableEq, Repr, Inhabited
+
+namespace Comp
+
+def max (C : Comp) : Int := 2 ^ C.digits - 1
+def lowest (C : Comp) : Int := -(2 ^ C.digits)
+
+/-- a built-in signed type with `D` digits (`int`, `long`, `__int128`) -/
+def builtin (D : Nat) : Comp := ⟨D, D + 1, .ub, .ub, false, .ub, 0⟩
+
+def fits (C : Comp) (v : Int) : Bool := decide (-(2 ^ (C.store - 1) : Int) ≤ v ∧ v < 2 ^ (C.store - 1))
+
+/-- outcome of an operation whose exact result is `v`, under mode `m` -/
+def out (C : Comp) (m : OvMode) (k : UB) (v : Int) : Res Int :=
+  if C.lowest ≤ v ∧ v ≤ C.max then .ok v else
+  match m with
+  | .ub => .ub k
+  | .sat => .ok (if v < C.lowest then C.lowest else C.max)
+  | .trap => .trap (decide (C.max < v))
+  | .throw => .throws (decide (C.max < v))
+  | .keep =>
+    if C.fits v then .ok v else
+    match C.beyond with
+    | .keep => .ok v
+    | .ub => .ub k
+    | _ => .ill "arithmetic beyond the stored width"
+  | .unknown => .ill "unknown"
+
+/-- `a ∘ b` for an arithmetic operator with exact result `v` (possibly of a wider type) -/
+def ar (C : Comp) (v : Int) : Res Int := C.out C.arith .signedOverflow v
+
+/-- `static_cast<int_t>(v)` of an arithmetic result when it is stored as a component -/
+def st (C : Comp) (v : Int) : Res Int :=
+  if C.lowest ≤ v ∧ v ≤ C.max then .ok v
+  else if C.fits v then .ok v else .ill "component beyond the stored width"
+
+/-- round half away from zero -/
+def nearInt (s : Bool) (m : Nat) (e : Int) : Int :=
+  let a : Nat := if 0 ≤ e then m * 2 ^ e.toNat else (2 * m + 2 ^ (-e).toNat) / 2 ^ ((-e).toNat + 1)
+  if s then -(a : Int) else a
+
+/-- `static_cast<int_t>(x)` for a floating `x`.  Under `keep` the value goes to the representation as it is:
+a built-in word (`limb = 0`) must hold it (undefined otherwise), a multi-word one is not predicted beyond its width -/
+def ofF (C : Comp) : FVal → Res Int
+  | .fin s m e =>
+    let t := if C.nearest then nearInt s m e else truncInt s m e
+    if C.fcvt = .keep then
+      (if (C.lowest ≤ t ∧ t ≤ C.max) ∨ C.fits t then .ok t
+       else if C.limb = 0 then .ub .floatToIntRange else .ill "floating value beyond the stored width")
+    else C.out C.fcvt .floatToIntRange t
+  | .inf s =>
+    match C.fcvt with
+    | .sat => .ok (if s then C.lowest else C.max)
+    | .trap => .trap (!s)
+    | .throw => .throws (!s)
+    | .ub => .ub .floatToIntRange
+    | _ => if C.limb = 0 then .ub .floatToIntRange else .ill "infinity to a multi-word component"
+  | .nan => if C.fcvt = .keep ∧ C.limb ≠ 0 then .ill "NaN to a multi-word component" else .ub .floatToIntRange
+
+/-- limbs of `a`, least significant first, each already scaled to its position -/
+def limbTerms (w : Nat) : Nat → Nat → Nat → List Nat
+  | 0, _, _ => []
+  | fuel + 1, a, pos => if a = 0 then [] else (a % 2 ^ w) * 2 ^ pos :: limbTerms w fuel (a / 2 ^ w) (pos + w)
+
+/-- `static_cast<FloatingPoint>(component)` -/
+def toF (C : Comp) (F : Fmt) (v : Int) : FVal :=
+  if C.limb = 0 then F.ofInt v
+  else
+    let a := (limbTerms C.limb (v.natAbs + 1) v.natAbs 0).foldl (fun acc (t : Nat) => F.add acc (F.ofInt (t : Int))) F.zero
+    if v < 0 then a.neg else a
+
+end Comp
+
+/-- `static_cast<FP>(fraction)` for component type `C` -/
+def fracToFC (F : Fmt) (C : Comp) (fr : Frac) : FVal := F.div (C.toF F fr.num) (C.toF F fr.den)
+
+def jumpCountC (F : Fmt) (C : Comp) (d : FVal) (f n : Frac) : Res Int :=
+  let maxF := C.toF F C.max
+  let dividend := F.sub (F.mul d (C.toF F f.den)) (C.toF F f.num)
+  let divisor := F.sub (C.toF F n.num) (F.mul d (C.toF F n.den))
+  let n0 := F.div dividend divisor
+  if fCmp .le n0 maxF = false then
+    .unreachable "n0 <= static_cast<FloatingPoint>(std::numeric_limits<int_t>::max())"
+  else do
+    let n1 ←
+      if fCmp .gt (F.add (C.toF F f.den) (F.mul (C.toF F n.den) n0)) maxF then do
+        let diff ← C.ar (C.max - f.den)
+        C.ofF (F.div (C.toF F diff) (C.toF F n.den))
+      else C.ofF n0
+    let prod ← C.ar (n.num * n1)
+    if fCmp .gt (F.add (C.toF F f.num) (C.toF F prod)) maxF then do
+      let a ← C.ar (C.max - f.num)
+      let b ← C.ar (a - n.num)
+      C.ofF (F.div (C.toF F b) (C.toF F n.num))
+    else pure n1
+
+def advanceC (C : Comp) (f n : Frac) (n2 : Int) : Res Frac := do
+  let pn ← C.ar (n2 * n.num)
+  let sn ← C.ar (f.num + pn)
+  let pd ← C.ar (n2 * n.den)
+  let sd ← C.ar (f.den + pd)
+  let num ← C.st sn
+  let den ← C.st sd
+  pure ⟨num, den⟩
+
+/-- `mid` with the two assertions on it; a negative sum converted to `uint_t` is only followed for the
+built-in behaviour (it wraps and fails the assertion), not predicted for the wrappers; a sum of exactly
+one digit more than `int_t` has is followed when `uint_t` shares the word with `int_t` (`elastic_integer<31>`) -/
+def midOfC (C : Comp) (l r : Frac) : Res Frac := do
+  let sn ← C.ar (l.num + r.num)
+  let sd ← C.ar (l.den + r.den)
+  if sn < 0 then
+    (if C.arith = .ub then .unreachable "static_cast<int_t>(mid.numerator) >= 0" else .ill "negative sum to the unsigned component")
+  else if sd < 0 then
+    (if C.arith = .ub then .unreachable "static_cast<int_t>(mid.denominator) >= 0" else .ill "negative sum to the unsigned component")
+  else if C.arith = .keep ∧ C.beyond = .keep ∧ C.store = C.digits + 1 ∧ (2 ^ C.digits ≤ sn ∧ sn < 2 ^ C.store) then
+    -- `uint_t` has one more digit than `int_t` in the same word: the sum is held, `static_cast<int_t>` of it is negative
+    .unreachable "static_cast<int_t>(mid.numerator) >= 0"
+  else if C.arith = .keep ∧ C.beyond = .keep ∧ C.store = C.digits + 1 ∧ sn ≤ C.max ∧ (2 ^ C.digits ≤ sd ∧ sd < 2 ^ C.store) then
+    .unreachable "static_cast<int_t>(mid.denominator) >= 0"
+  else do
+    let num ← C.st sn
+    let den ← C.st sd
+    pure ⟨num, den⟩
+
+def fnStepC (F : Fmt) (C : Comp) (d : FVal) (mid : Frac) (fars : Int) (f n : Frac) : Res (Frac × Option Exit) :=
+  if fars < 3 then pure (mid, none)
+  else do
+    let n2 ← jumpCountC F C d f n
+    if n2 = 0 then pure (f, some .zeroJump)
+    else do
+      let f' ← advanceC C f n n2
+      pure (f', if fCmp .eq (fracToFC F C f') d then some .jumpEq else none)
+
+def mfStepC (F : Fmt) (C : Comp) (d : FVal) (s : MFState) : Res Step := do
+  let mid ← midOfC C s.left s.right
+  let midq := fracToFC F C mid
+  if fCmp .lt midq d then do
+    let r ← fnStepC F C d mid s.lefts s.left s.right
+    match r.2 with
+    | some e => pure (.ret r.1 e)
+    | none => pure (.cont ⟨r.1, s.right, s.lefts + 1, 0⟩)
+  else if fCmp .gt midq d then do
+    let r ← fnStepC F C d mid s.rights s.right s.left
+    match r.2 with
+    | some e => pure (.ret r.1 e)
+    | none => pure (.cont ⟨s.left, r.1, 0, s.rights + 1⟩)
+  else pure (.ret mid .mid)
+
+def mfLoopC (F : Fmt) (C : Comp) (d : FVal) : Nat → MFState → Res (Frac × Exit)
+  | 0, _ => .diverges
+  | fuel + 1, s =>
+    match mfStepC F C d s with
+    | .ok (.cont s') => mfLoopC F C d fuel s'
+    | .ok (.ret f e) => .ok (f, e)
+    | .ub k => .ub k
+    | .unreachable m => .unreachable m
+    | .trap p => .trap p
+    | .throws p => .throws p
+    | .oob i => .oob i
+    | .diverges => .diverges
+    | .ill m => .ill m
+
+def mfInitC (F : Fmt) (C : Comp) (d : FVal) : Res Step :=
+  if fCmp .le d (C.toF F C.max) = false then
+    .unreachable "d <= static_cast<FloatingPoint>(std::numeric_limits<int_t>::max())"
+  else do
+    let l ← C.ofF d
+    let r0 ← C.ar (l + 1)
+    let r ← C.st r0
+    let left : Frac := ⟨l, 1⟩
+    let right : Frac := ⟨r, 1⟩
+    if fCmp .eq (fracToFC F C left) d then pure (.ret left .left0)
+    else if fCmp .eq (fracToFC F C right) d then pure (.ret right .right0)
+    else pure (.cont ⟨left, right, 0, 0⟩)
+
+def mfPosC (F : Fmt) (C : Comp) (d : FVal) (fuel : Nat) : Res (Frac × Exit) := do
+  let s ← mfInitC F C d
+  match s with
+  | .ret f e => pure (f, e)
+  | .cont s => mfLoopC F C d fuel s
+
+/-- `make_fraction<int_t>(d)` for a component type described by `C` -/
+def makeFractionC (F : Fmt) (C : Comp) (d : FVal) (fuel : Nat) : Res (Frac × Exit) :=
+  if fCmp .lt d F.zero then do
+    let r ← mfPosC F C d.neg fuel
+    let nn ← C.ar (-r.1.num)
+    pure (⟨nn, r.1.den⟩, r.2)
+  else mfPosC F C d fuel
+
 end Cnl.MakeFraction
